@@ -191,13 +191,15 @@ def run_job(job, ctx):
         compare(ctx, "x.q.w", {"q.w": s}, "E-compound-key", job, out)
         compare(ctx, "x.zzz", {"yyy": s}, "E-unrelated", job, out)
         # mapping onto an unsupported grammar must be rejected up front
-        for bad_target in ("zzz", s.upper() if s.upper() != s else s + "x", ""):
+        for bad_target, pre, post in (("zzz", [], []), (s.upper() if s.upper() != s else s + "x", [], []), ("", [], []),
+                                      ("zzz", ["-E", "good1=%s" % s], []), ("nope", ["-E", "g1=%s" % s, "-E", "g2=py"], ["-E", "g3=rs"]),
+                                      ("zzz", [], ["-E", "good2=%s" % s])):
             root = run.make_repo({"x.py": '# <block name="a">\n# </block>\n'})
             try:
-                res = run.run(ctx.bin("rel"), ["list", "-E", "abc=%s" % bad_target], root, stdin=None, env=dict(TERM))
+                res = run.run(ctx.bin("rel"), ["list"] + pre + ["-E", "abc=%s" % bad_target] + post, root, stdin=None, env=dict(TERM))
             finally:
                 run.rm(root)
-            key = h(["reject", s, bad_target])
+            key = h(["reject", s, bad_target, pre, post])
             sets = {"shape": ["E-unsupported"], "grammar": ["-"]}
             if res.rc == 0 or bad_outcome(res) or not res.err.strip():
                 out.append(Case(VIOLATED, key=key, nontrivial=True, sig="C16/unsupported-mapping-accepted", sets=sets,
